@@ -124,6 +124,7 @@ type opResult struct {
 	// transition it took part in
 	kind    accKind
 	partner *thread   // kRendezvous
+	pslot   int       // which of the partner's two clock slots belongs to this rendezvous
 	ch      *chanCore // channel transitions
 	slot    int       // buffered slot index
 	obj     *object   // kRead/kWrite
@@ -220,8 +221,12 @@ type thread struct {
 	exited bool // goroutine is gone (or never needs a wake)
 	parent int
 	nspawn int
-	syncw  uint64        // race build: the thread's clock at its last announcement
-	gone   chan struct{} // closed when the goroutine has exited
+	// race build: the thread's clock at its last two announcements. Two slots,
+	// used alternately: after a rendezvous the initiator may announce its next
+	// operation before the partner gets to acquire the clock of this one.
+	syncw   [2]uint64
+	syncIdx int
+	gone    chan struct{} // closed when the goroutine has exited
 }
 
 // Event is a harness-visible record, stamped with the thread's vector clock.
@@ -394,7 +399,8 @@ func (s *sched) spawn(parent *thread, f func()) *thread {
 			t.done = true
 			s.alive--
 			if RaceBuild {
-				raceRelease(&t.syncw)
+				t.syncIdx ^= 1
+				raceRelease(&t.syncw[t.syncIdx])
 			}
 			if r != nil {
 				s.ex.Term = TermCrash
@@ -460,7 +466,8 @@ func (t *thread) do(o *op) opResult {
 	if RaceBuild {
 		// publish this thread's clock as of the operation (nothing happens
 		// on this goroutine between the announcement and the wake-up)
-		raceRelease(&t.syncw)
+		t.syncIdx ^= 1
+		raceRelease(&t.syncw[t.syncIdx])
 	}
 	t.pend = o
 	s.handoff(t)
@@ -483,7 +490,7 @@ func (t *thread) racePost() {
 	switch r.kind {
 	case kRendezvous:
 		if r.partner != nil {
-			raceAcquire(&r.partner.syncw)
+			raceAcquire(&r.partner.syncw[r.pslot])
 		}
 	case kBufSend, kBufRecv:
 		w := &r.ch.slotw[r.slot]
@@ -493,6 +500,8 @@ func (t *thread) racePost() {
 		raceReleaseMerge(&r.ch.closew)
 	case kClosedRecv:
 		raceAcquire(&r.ch.closew)
+		// a context's done channel is closed by cancellation, which releases on the channel's object
+		raceAcquire(&r.ch.obj.syncw)
 	case kWrite:
 		raceAcquire(&r.obj.syncw)
 		raceReleaseMerge(&r.obj.syncw)
@@ -663,8 +672,8 @@ func (s *sched) apply(tr Trans) {
 		case kRendezvous:
 			p := s.threads[tr.Ptid]
 			p.pend = nil
-			p.res = opResult{arm: tr.Parm, val: a.val, ok: true, kind: kRendezvous, partner: t, ch: c}
-			t.res.partner = p
+			p.res = opResult{arm: tr.Parm, val: a.val, ok: true, kind: kRendezvous, partner: t, pslot: t.syncIdx, ch: c}
+			t.res.partner, t.res.pslot = p, p.syncIdx
 			j := joinVC(t.vc, p.vc)
 			t.vc = j
 			p.vc = j.clone()
@@ -765,7 +774,8 @@ func Go(f func()) {
 	s.runq = append(s.runq, p)
 	s.cur = t
 	if RaceBuild {
-		raceRelease(&p.syncw)
+		p.syncIdx ^= 1
+		raceRelease(&p.syncw[p.syncIdx])
 	}
 	raceOff()
 	t.wake <- struct{}{}
@@ -846,7 +856,8 @@ func RunOnce(cfg Config, body func(), chooser Chooser) *Exec {
 			case <-t.gone:
 			default:
 			}
-			raceAcquire(&t.syncw)
+			raceAcquire(&t.syncw[0])
+			raceAcquire(&t.syncw[1])
 		}
 	}
 teardown:
